@@ -25,6 +25,8 @@ def variants(sc, b):
         # the same messages from an RFC 7692 peer on a connection that negotiated permessage-deflate (other parser path: no incremental
         # UTF-8 validation, RSV1 allowed): complete data messages compressed, same fragmentation, Ping / Pong between fragments kept
         out.append(('deflate', sessprop.via_deflate(sc, 'rand')))
+    if sessprop.sampled(sc, b, 4) and not sc.get('react'):
+        out.append(('second-connection', sessprop.with_second_connection(sc)))      # another live connection reads during every handler
     return out
 
 
